@@ -16,6 +16,7 @@ outcome; (3) every built-in specifier instance has the documented priorities/dep
 from __future__ import annotations
 
 import math
+import re
 import types
 
 from mc.explorer import HarnessError
@@ -61,6 +62,14 @@ class _Done(Exception):
     pass
 
 
+class ClassUniverseFailure(Exception):
+    """Defining the classes of a generated universe (or a statement after them) failed."""
+
+    def __init__(self, exc):
+        super().__init__(exc)
+        self.exc = exc
+
+
 class TextRouteFailure(Exception):
     """The compiled-text program died outside `new` (e.g. while building a specifier)."""
 
@@ -80,13 +89,21 @@ def _hook(ns):
     raise _Done
 
 
+# the class universe being compiled: group (base | chain | mi), tier, its class descriptions
+_UNIVERSE = {"group": "base", "tier": "quick", "defs": dict(G.CLASSDEFS), "only": None}
+
+
+def set_universe(group, tier, only_families=None):
+    _UNIVERSE.update(group=group, tier=tier, defs=G.classdefs(group, tier), only=only_families)
+
+
 def in_veneer(mode2D, job, extra_text=""):
     """Compile prelude(+extra_text) in the given mode and run job(namespace) at its end."""
     import scenic
 
     global _JOB, _JOB_RESULT
     _JOB, _JOB_RESULT = job, None
-    text = G.prelude(mode2D) + extra_text + "c06mod._hook(globals())\n"
+    text = G.prelude(mode2D, _UNIVERSE["group"], _UNIVERSE["tier"], _UNIVERSE["only"]) + extra_text + "c06mod._hook(globals())\n"
     try:
         scenic.scenarioFromString(text, mode2D=mode2D)
     except _Done:
@@ -97,6 +114,8 @@ def in_veneer(mode2D, job, extra_text=""):
         cur = _TEXT.get("cur")
         if extra_text and cur is not None:
             raise TextRouteFailure(cur[0], e)
+        if _UNIVERSE["group"] != "base":
+            raise ClassUniverseFailure(e)
         raise HarnessError(f"prelude does not compile (mode2D={mode2D}): {e!r}")
     else:
         raise HarnessError("prelude finished without reaching the hook")
@@ -274,6 +293,10 @@ def classify_exception(e):
         return M.NO_PROJECTION
     if type(e).__name__ == "RejectionException" and "Unable to place object on surface" in msg:
         return PROJECTION_REJECTED
+    if isinstance(e, AttributeError):
+        m = re.search(r"SimpleNamespace' object has no attribute '(\w+)'", msg)
+        if m:  # a specifier / default read a property of the object before it was set
+            return "dependency-not-ready:" + m.group(1)
     return "other:" + type(e).__name__
 
 
@@ -427,26 +450,40 @@ _CLASSINFO = {}
 
 
 def class_info(ns, clsname, mode2D):
-    """(merged defaults of the model, documented finals, violations of the class plumbing)."""
-    key = (clsname, mode2D)
+    """(merged defaults of the model, documented finals, violations of the class plumbing,
+    class names along the MRO, multiple inheritance involved?)."""
+    group, tier, defs = _UNIVERSE["group"], _UNIVERSE["tier"], _UNIVERSE["defs"]
+    key = (group, tier if group == "mi" else "", clsname, mode2D)
     if key in _CLASSINFO:
         return _CLASSINFO[key]
     cls = ns[clsname]
     chain = raw_chain(cls)
+    raw = dict(chain)
     problems = []
-    # user classes: the declarations must be the ones written in the prelude
+    tag = clsname if group == "base" else group  # generated classes: one signature per universe
     names = [n for n, _ in chain]
+    # the model's own linearisation of the described classes (Python's C3, an assumption)
+    user_mro = [n for n in M.c3_mro(clsname, {n: d.bases for n, d in defs.items()}) if n in defs]
+    impl_user = [n for n in names if n in defs]
+    if user_mro != impl_user:
+        problems.append((f"class-mro:{tag}", f"class {clsname}: user classes along the MRO should be {user_mro}, are {impl_user}"))
+    multiple = any(len(defs[n].bases) > 1 for n in user_mro)
     decl_chain = []
+    for name in user_mro:
+        # user classes: the declarations must be the ones written in the prelude
+        want = G.class_decls(defs[name], mode2D)
+        got = raw.get(name, {})
+        for prop in sorted(set(want) | set(got)):
+            w, g = want.get(prop), got.get(prop)
+            ok = w is not None and g is not None and (w.final, w.additive, w.dynamic) == (g.final, g.additive, g.dynamic)
+            # (the implementation accumulates the inherited dependencies of an additive
+            # default into the declaration object itself: only demand a superset there)
+            ok = ok and (g.deps >= w.deps if w.additive else g.deps == w.deps)
+            if not ok:
+                problems.append((f"class-declaration:{tag}:{prop}", f"class {name} in mode2D={mode2D}: property {prop} declared as {w}, compiled as {g}"))
+        decl_chain.append(want)
     for name, decls in chain:
-        base = name[:-2] if name.endswith("2D") else name
-        if base in G.CLASSDEFS and name == base:
-            want = G.class_decls(G.CLASSDEFS[base], mode2D)
-            for prop in sorted(set(want) | set(decls)):
-                w, g = want.get(prop), decls.get(prop)
-                if w is None or g is None or (w.deps, w.final, w.additive, w.dynamic) != (g.deps, g.final, g.additive, g.dynamic):
-                    problems.append((f"class-declaration:{base}:{prop}", f"class {base} in mode2D={mode2D}: property {prop} declared as {w}, compiled as {g}"))
-            decl_chain.append(want)
-        else:
+        if name not in defs:
             decl_chain.append(decls)
     merged = M.merge_defaults(decl_chain)
     finals = set()
@@ -458,17 +495,17 @@ def class_info(ns, clsname, mode2D):
         if m is None or d is None or set(d.requiredProperties) != set(m.deps) or (prop in cls._finalProperties) != m.final:
             got = None if d is None else (sorted(d.requiredProperties), prop in cls._finalProperties)
             want = None if m is None else (sorted(m.deps), m.final)
-            problems.append((f"class-merge:{clsname}:{prop}", f"class {clsname} (mode2D={mode2D}): default of {prop}: (dependencies, final) should be {want}, is {got}"))
+            problems.append((f"class-merge:{tag}:{prop}", f"class {clsname}({', '.join(defs[clsname].bases) if clsname in defs else ''}) (mode2D={mode2D}): merged default of {prop}: (dependencies, final) should be {want}, is {got}"))
     for prop in sorted(finals):
         if prop in merged and not merged[prop].final:
-            problems.append((f"class-final:{clsname}:{prop}", f"class {clsname}: {prop} is documented as final but not declared so"))
-    info = (merged, frozenset(finals), problems, names)
+            problems.append((f"class-final:{tag}:{prop}", f"class {clsname}: {prop} is documented as final but not declared so"))
+    info = (merged, frozenset(finals), problems, names, multiple)
     _CLASSINFO[key] = info
     return info
 
 
 def model_outcome(ns, clsname, mode2D, keys):
-    merged, finals, _, names = class_info(ns, clsname, mode2D)
+    merged, finals, _, names, _ = class_info(ns, clsname, mode2D)
     oriented = any(n.startswith("OrientedPoint") for n in names)
     sems = [M.semantics(_table(), G.INSTS[k].desc, mode2D, oriented) for k in keys]
     return sems, M.resolve(sems, merged, finals)
@@ -596,8 +633,26 @@ def judge(ns, clsname, mode2D, keys, specs, obs, sems, out, stats):
         vals = [eval(e, {"self": selfns, "__builtins__": {}}) for e in exprs]
         want = tuple(vals) if merged[prop].additive else vals[0]
         stats["default_values_judged"] += 1
-        if not supplied_matches(final[prop], want, prop, mode2D):
-            v.append((f"default-value:{prop}", f"{prop} = {show(final[prop])}, expected the default {show(want)} of the most derived class"))
+        got = final[prop]
+        if merged[prop].additive and class_info(ns, clsname, mode2D)[4] and len(vals) > 1:
+            # several superclasses: "all the values along the MRO, the class's own first";
+            # the order of the inherited ones is not specified anywhere -> counted only
+            rest = list(got[1:]) if isinstance(got, tuple) else None
+            okv = rest is not None and len(got) == len(want) and supplied_matches(got[0], want[0], prop, mode2D)
+            for x in want[1:]:
+                k = next((i for i, y in enumerate(rest or ()) if supplied_matches(y, x, prop, mode2D)), None) if okv else None
+                if k is None:
+                    okv = False
+                    break
+                del rest[k]
+            if not okv:
+                v.append((f"default-value:{prop}", f"{prop} = {show(got)}, expected the values {show(want)} (own value first, the inherited ones in any order)"))
+            elif supplied_matches(got, want, prop, mode2D):
+                stats["additive_order_as_mro"] += 1
+            else:
+                stats["additive_order_unspecified"] += 1
+        elif not supplied_matches(got, want, prop, mode2D):
+            v.append((f"default-value:{prop}", f"{prop} = {show(got)}, expected the default {show(want)} of the most derived class"))
     return v
 
 
@@ -682,7 +737,7 @@ def text_of(clsname, perm):
     return f"new {clsname} " + ", ".join(G.INSTS[k].text for k in perm)
 
 
-def run_multiset(ns, clsname, mode2D, ms, stats, text_obs=None):
+def run_multiset(ns, clsname, mode2D, ms, stats, text_obs=None, keep=None):
     """-> (list of (signature, message), model outcome).  One violation per signature."""
     cls = ns[clsname]
     ms = tuple(ms)
@@ -758,6 +813,8 @@ def run_multiset(ns, clsname, mode2D, ms, stats, text_obs=None):
             d1 = obs.exc if obs.status == "error" else "object created"
             ref = f"error {sorted(out.errors)}: {out.detail}" if out.errors else "no error"
             report(sig, f"{text_of(clsname, p0)} [{r0}] -> {d0}\n{text_of(clsname, perm)} [{route}] -> {d1}\n(mode2D={mode2D}) {why}; the reference says: {ref}")
+    if keep is not None:
+        keep[(clsname, ms)] = results
     # counters
     stats["multisets"] += 1
     if len(perms) > 1:
@@ -792,40 +849,110 @@ def wants_text(cls, ms, index):
     return index % 24 == 0
 
 
+def wants_text_generated(ms, index):
+    """Class universes: `new K` of every class, and a fixed stride of the rest."""
+    if len(ms) == 0:
+        return True
+    return index % (4 if len(ms) == 1 else 16) == 0
+
+
+def compare_declaration_orders(defs, keep, mode2D, stats):
+    """Classes of one family differ only in the order of the lines of their body: the
+    outcome of every multiset must be the same for all of them."""
+    out = []
+    first = {}
+    for (clsname, ms), results in keep.items():
+        fam = defs[clsname].family if clsname in defs else None
+        if fam is None or not results:
+            continue
+        k = (fam, ms)
+        if k not in first:
+            first[k] = (clsname, results[0])
+            continue
+        c0, (p0, r0, o0) = first[k]
+        perm, route, obs = results[0]
+        stats["declaration_orders_compared"] += 1
+        eq, why = outcomes_equal(o0, obs, mode2D)
+        if not eq:
+            d0 = o0.exc if o0.status == "error" else "object created"
+            d1 = obs.exc if obs.status == "error" else "object created"
+            kind = "error-or-not" if o0.status != obs.status else ("error-kind" if o0.status == "error" else "values")
+            msg = f"{text_of(c0, p0)} -> {d0}\n{text_of(clsname, perm)} -> {d1}\n(mode2D={mode2D}) {why}; the two classes differ only in the order of their lines:\n{G.class_text(defs[c0])}\n{G.class_text(defs[clsname])}"
+            out.append((f"declaration-order-dependence:{kind}", msg, clsname, ms))
+    return out
+
+
 def run_chunk(item):
-    mode2D, cases = item  # cases: [(class, multiset, text?)]
+    mode2D, group, tier, cases, *rest = item  # cases: [(class, multiset, text?)]
+    only = rest[0] if rest else None  # families to define (None: the whole universe)
     stats = new_stats()
     violations = []
-    text_cases = []
-    for cls, ms, text in cases:
-        if text:
-            for perm in G.permutations(tuple(ms)):
-                text_cases.append((cls, perm))
 
-    def job(ns):
-        check_argument_facts(ns)
-        tobs = {}
-        if text_cases:
-            if len(_TEXT["obs"]) != len(text_cases):
-                raise HarnessError(f"text route ran {len(_TEXT['obs'])} of {len(text_cases)} cases")
-            tobs = {case: _TEXT["obs"][i] for i, case in enumerate(text_cases)}
+    def case_of(cls, ms, text):
+        return {"cls": cls, "mode2D": mode2D, "ms": list(ms), "text": bool(text), "group": group, "gen_tier": tier}
+
+    def attempt(cases, only_families=None):
+        set_universe(group, tier, only_families)
+        defs = _UNIVERSE["defs"]
+        text_cases = []
         for cls, ms, text in cases:
-            sub = {k: o for k, o in tobs.items() if k[0] == cls and sorted(k[1]) == sorted(ms)} if text else None
-            found, out = run_multiset(ns, cls, mode2D, tuple(ms), stats, sub)
-            for sig, msg in found:
-                violations.append((sig, msg, {"cls": cls, "mode2D": mode2D, "ms": list(ms), "text": bool(text)}))
+            if text:
+                for perm in G.permutations(tuple(ms)):
+                    text_cases.append((cls, perm))
+
+        def job(ns):
+            if group == "base":
+                check_argument_facts(ns)
+            tobs = {}
+            if text_cases:
+                if len(_TEXT["obs"]) != len(text_cases):
+                    raise HarnessError(f"text route ran {len(_TEXT['obs'])} of {len(text_cases)} cases")
+                tobs = {case: _TEXT["obs"][i] for i, case in enumerate(text_cases)}
+            keep = {} if group != "base" else None
+            by_ms = {}
+            for k, o in tobs.items():
+                by_ms.setdefault((k[0], tuple(sorted(k[1]))), {})[k] = o
+            for cls, ms, text in cases:
+                sub = by_ms.get((cls, tuple(sorted(ms))), {}) if text else None
+                found, out = run_multiset(ns, cls, mode2D, tuple(ms), stats, sub, keep)
+                for sig, msg in found:
+                    violations.append((sig, msg, case_of(cls, ms, text)))
+            if keep:
+                for sig, msg, cls, ms in compare_declaration_orders(defs, keep, mode2D, stats):
+                    violations.append((sig, msg, case_of(cls, ms, False)))
+
+        try:
+            in_veneer(mode2D, job, text_program(text_cases) if text_cases else "")
+        except TextRouteFailure as f:
+            cls, perm = text_cases[f.index]
+            violations.append(("text:statement-fails", f"{text_of(cls, perm)} (mode2D={mode2D}) as Scenic text fails outside object creation: {f.exc!r}", case_of(cls, sorted(perm, key=G.ORDER.get), True)))
+            # the rest of the chunk through the API only
+            cases = [(c, m, False) for c, m, _ in cases]
+            text_cases = []
+            in_veneer(mode2D, job, "")
+        finally:
+            _TEXT["obs"] = {}
 
     try:
-        in_veneer(mode2D, job, text_program(text_cases) if text_cases else "")
-    except TextRouteFailure as f:
-        cls, perm = text_cases[f.index]
-        case = {"cls": cls, "mode2D": mode2D, "ms": sorted(perm, key=G.ORDER.get), "text": True}
-        violations.append(("text:statement-fails", f"{text_of(cls, perm)} (mode2D={mode2D}) as Scenic text fails outside object creation: {f.exc!r}", case))
-        # the rest of the chunk through the API only
-        text_cases = []
-        cases = [(c, m, False) for c, m, _ in cases]
-        in_veneer(mode2D, job, "")
-    _TEXT["obs"] = {}
+        attempt(cases, only)
+    except ClassUniverseFailure:
+        # a class of the universe cannot even be defined: find out which families
+        defs = G.classdefs(group, tier)
+        fams = []
+        for cls, ms, text in cases:
+            if defs[cls].family not in fams:
+                fams.append(defs[cls].family)
+        failed = 0
+        for fam in fams:
+            sub = [c for c in cases if defs[c[0]].family == fam]
+            try:
+                attempt(sub, {fam})
+            except ClassUniverseFailure as f:
+                failed += 1
+                if failed <= 3:
+                    members = [c for c in defs.values() if c.family == fam]
+                    violations.append((f"class-definition-fails:{group}:{classify_exception(f.exc)}", f"defining the classes of family {fam} (mode2D={mode2D}) fails: {f.exc!r}\n" + "\n".join(G.class_text(c) for c in members), case_of(sub[0][0], sub[0][1], False)))
+    set_universe("base", "quick")
     return stats, violations
 
 
@@ -841,6 +968,9 @@ def new_stats():
         winner_identified_by_value=0,
         dep_edges=0,
         default_values_judged=0,
+        additive_order_as_mro=0,
+        additive_order_unspecified=0,
+        declaration_orders_compared=0,
         table_tags=[],
         ok=0,
         multi_error=0,
@@ -863,7 +993,7 @@ def add_stats(total, s):
             total[k] += v
 
 
-def chunks(plan, size):
+def chunks(plan, size, tier="quick"):
     """Group the plan by mode into chunks of about `size` resolutions."""
     out = []
     for mode2D in (False, True):
@@ -879,17 +1009,46 @@ def chunks(plan, size):
             cur.append((cls, ms, text))
             weight += n * (5 if text else 1)
             if weight >= size:
-                out.append((mode2D, cur))
+                out.append((mode2D, "base", tier, cur))
                 cur, weight = [], 0
         if cur:
-            out.append((mode2D, cur))
+            out.append((mode2D, "base", tier, cur))
+    return out
+
+
+def chunks_generated(plan, size, tier):
+    """Chunks of the class universes; a family (declaration-order variants of one class) is
+    never split.  Every chunk compiles its whole universe, so they are kept few."""
+    out = []
+    for group in ("chain", "mi"):
+        defs = G.classdefs(group, tier)
+        for mode2D in (False, True):
+            cur, weight, gi, last_family = [], 0, 0, None
+            for g, cls, m2, ms in plan:
+                if g != group or m2 != mode2D:
+                    continue
+                fam = defs[cls].family
+                if weight >= size and fam != last_family:
+                    out.append((mode2D, group, tier, cur))
+                    cur, weight = [], 0
+                last_family = fam
+                text = wants_text_generated(ms, gi)
+                gi += 1
+                n = len(G.permutations(ms)) if len(set(ms)) > 1 else 1
+                cur.append((cls, ms, text))
+                weight += n * (4 if text else 1)
+            if cur:
+                out.append((mode2D, group, tier, cur))
     return out
 
 
 def run(ctx):
     _table()
     plan = G.plan(ctx.tier)
-    items = ctx.rotate(chunks(plan, 700 if ctx.tier == "quick" else 4000))
+    gplan = G.plan_generated(ctx.tier)
+    items = chunks(plan, 700 if ctx.tier == "quick" else 4000, ctx.tier)
+    items += chunks_generated(gplan, 1200 if ctx.tier == "quick" else 6000, ctx.tier)
+    items = ctx.rotate(items)
     # workers are forked: keep the collector from touching (and so copying) the parent's heap
     import gc
 
@@ -907,6 +1066,8 @@ def run(ctx):
                 ctx.violation(sig, msg, case)
     for cls, m2, ms in (plan[len(plan) // 3], plan[len(plan) // 2], plan[-1]):
         samples.append({"mode2D": m2, "program": text_of(cls, ms), "orders": len(G.permutations(ms))})
+    for g, cls, m2, ms in (gplan[len(gplan) // 3], gplan[-1]):
+        samples.append({"mode2D": m2, "classes": G.class_text(G.classdefs(g, ctx.tier)[cls]), "program": text_of(cls, ms), "orders": len(G.permutations(ms))})
 
     # vacuity guards
     need = {
@@ -918,6 +1079,8 @@ def run(ctx):
         "default_values_judged": total["default_values_judged"],
         "text_resolutions": total["text_resolutions"],
         "multisets_permuted": total["multisets_permuted"],
+        "declaration_orders_compared": total["declaration_orders_compared"],
+        "additive_values_under_multiple_inheritance": total["additive_order_as_mro"] + total["additive_order_unspecified"],
     }
     for k in (M.AMBIGUOUS, M.FINAL, M.MISSING, M.CYCLIC, M.ON_VECTOR, M.MODIFIED_TWICE):
         need["predicted:" + k] = total["kinds"].get(k, 0)
@@ -927,7 +1090,7 @@ def run(ctx):
         for k in (M.AMBIGUOUS, DUPLICATE, M.FINAL, M.MISSING, M.CYCLIC, M.ON_VECTOR):
             need["observed:" + k] = total["observed"].get(k, 0)
     else:
-        for k in ("winner_identified_by_value", "dep_edges", "default_values_judged", "text_resolutions"):
+        for k in ("winner_identified_by_value", "dep_edges", "default_values_judged", "text_resolutions", "declaration_orders_compared", "additive_values_under_multiple_inheritance"):
             need.pop(k)
     empty = [k for k, n in need.items() if n == 0]
     if empty:
@@ -949,7 +1112,11 @@ def run(ctx):
         "for each class of {Object, OrientedPoint, Point, user classes A B C P Q H F} and each mode (3D, 2D), and EVERY distinct permutation "
         "of it; each permutation is resolved through veneer.new inside a live compilation and judged by models/specres.py; a fixed stride is "
         "also compiled from Scenic text. states = (class, mode, multiset); transitions = resolutions observed; non-trivial = multiset "
-        "where two specifiers compete for a property at different priorities, or a modifying specifier modifies, or the reference predicts an error",
+        "where two specifiers compete for a property at different priorities, or a modifying specifier modifies, or the reference predicts an error. "
+        "Class universes (merging of defaults): `chain` = every way (absent, plain, plain self., additive, additive self.) of declaring one property at "
+        "each of 3 single-inheritance levels, `mi` = the same in the first base, the non-first base, the common root and the class itself of C(U,V) / C(V,U) "
+        "diamonds (with final / dynamic / self.-dependent defaults coming from either base), leaf bodies in both line orders; each class is created with "
+        "its dependencies left to the class defaults or given by `with` specifiers",
         samples=samples,
         multisets_with_several_orders=total["multisets_permuted"],
         text_route_resolutions=total["text_resolutions"],
@@ -958,6 +1125,11 @@ def run(ctx):
         rival_values_indistinct=total["indistinct"],
         dependency_edges_checked=total["dep_edges"],
         user_default_values_judged=total["default_values_judged"],
+        class_universes={g: len([c for c in G.generated(g, ctx.tier) if c.instantiate]) for g in ("chain", "mi")},
+        class_universe_states=len(gplan),
+        declaration_order_variants_compared=total["declaration_orders_compared"],
+        additive_tuples_under_multiple_inheritance_in_mro_order=total["additive_order_as_mro"],
+        additive_tuples_under_multiple_inheritance_other_order_unspecified=total["additive_order_unspecified"],
         table_instance_checks=len(table_checks),
         documented_rows=n_rows,
         specifier_instances=len(G.INSTS),
@@ -984,7 +1156,9 @@ def run(ctx):
         "error kinds are told apart by exception class and message; 'Cannot use X specifier to modify itself' (same specifier twice) is accepted where the reference predicts a same-priority ambiguity or a double modification",
         "when several documented errors apply to one multiset, any of them may be reported, in any order",
         "internal properties (leading underscore, e.g. _observingEntity set by `visible`, documented as 'also adds a requirement') are not judged",
-        "additive/dynamic/final attributes of defaults are not described in the reference; additive = tuple of the values along the class chain (most derived first), dynamic = no effect on resolution, final = cannot be specified",
+        "additive/dynamic/final attributes of defaults are not described in the reference; additive = tuple of the values of every declaration of the property along the MRO (whatever their own attributes) when the most derived declaration is additive, dynamic = no effect on resolution, final = cannot be specified",
+        "several superclasses: the order of 'superclasses' is taken to be Python's C3 MRO (checked against the classes' __mro__); of an additive tuple only the class's own value first and the multiset of inherited values are judged, their order is counted (additive_tuples_under_multiple_inheritance_*), not judged",
+        "what IS judged for every merged default whatever the concatenation order: it is evaluated only after every property read by any of the concatenated declarations is final, and its merged dependencies are exactly their union",
         "2D mode: `with heading X` is read as `facing X` only for classes with an orientation (porting.rst says it unconditionally; a Point has no heading); a modifying `on` whose region type refuses to project ('does not yet support projection', polygonal regions) or on which the given position has no projection (RejectionException 'Unable to place object on surface') is an argument-level outcome: counted (skipped_projection_unsupported), not judged",
         "values are compared at compile time (random values structurally: same distribution over the same operands), nothing is sampled",
     ]
@@ -992,6 +1166,13 @@ def run(ctx):
 
 def replay(ctx, case):
     _table()
-    stats, violations = run_chunk((case["mode2D"], [(case["cls"], tuple(case["ms"]), case.get("text", False))]))
+    group, tier = case.get("group", "base"), case.get("gen_tier", "quick")
+    cases = [(case["cls"], tuple(case["ms"]), case.get("text", False))]
+    if group != "base":
+        # with the other classes of its family (declaration-order variants)
+        defs = G.classdefs(group, tier)
+        fam = defs[case["cls"]].family
+        cases = [(c.name, tuple(case["ms"]), case.get("text", False) and c.name == case["cls"]) for c in defs.values() if c.family == fam and c.instantiate]
+    stats, violations = run_chunk((case["mode2D"], group, tier, cases) + (({fam},) if group != "base" else ()))
     for sig, msg, c in violations:
         ctx.violation(sig, msg, c)
